@@ -38,13 +38,17 @@ var fuseG int64
 //     is evaluated with both cases ready only by a caller whose context is
 //     already cancelled and that arrives between the dialer's close(result.done)
 //     and its delete(t.dialing, key). The Mutex.Lock that directly follows a
-//     granted close point of the same goroutine is therefore fused with it (no
+//     granted close point of the same goroutine (and the instrumenter's
+//     "after-close" point between them) is therefore fused with it (no
 //     schedule point in between, as long as the mutex is free): that window is
 //     executed atomically and the ambiguous select state is unreachable.
 func install(s *sched.Sched) {
 	vsync.Hook = func(kind string, obj any, ready func() bool) {
 		if fuseG != 0 {
 			if g := goid(); g == fuseG {
+				if kind == "after-close" {
+					return // the instrumenter's point behind the close statement: stay fused
+				}
 				fuseG = 0
 				if kind == "Mutex.Lock" && ready() {
 					return
@@ -61,6 +65,7 @@ func install(s *sched.Sched) {
 	// "context wins" on the first (the write then runs with a dead context and
 	// its watchdog closes the connection), so the answer "lock wins" also covers
 	// the directly following lock of the same goroutine: one deviation, not two.
+	websocket.VerifRand = &counterReader{}
 	websocket.VerifSelect = func(site string, n int) int {
 		g := goid()
 		if selSticky && g == selG {
@@ -77,3 +82,15 @@ var (
 	selG      int64
 	selSticky bool
 )
+
+// counterReader is the deterministic stand-in for crypto/rand inside the local
+// coder/websocket copy (frame masks, Sec-WebSocket-Key).
+type counterReader struct{ n uint32 }
+
+func (r *counterReader) Read(p []byte) (int, error) {
+	for i := range p {
+		r.n = r.n*1664525 + 1013904223
+		p[i] = byte(r.n >> 24)
+	}
+	return len(p), nil
+}
